@@ -1,12 +1,144 @@
 import IpaVerif.Model.Util
-/-! Line-protocol handlers for property C05 (model side). Import-free. -/
+import IpaVerif.Model.Shuffle
+/-! Line-protocol handlers for property C05 (model side). Import-free.
+
+Request grammar: see `harness/hooks/shuffle.rs`. The real PRSS masks, destinations and permutations are
+not observable, so `c05.e2e` runs the *model protocol* with pseudo-random round parameters of its own
+(derived from the request's seed) and compares what the theorem says is invariant: the multiset of
+reconstructed rows and the consistency of the sharing. -/
 namespace IpaVerif.Driver.C05
-open IpaVerif.Util
+open IpaVerif.Util IpaVerif.Shuffle IpaVerif.Generated
+
+/-- a small deterministic generator (values only need to vary, not to be good) -/
+def mix (seed a b c : Nat) : Nat :=
+  let x := (seed + 0x9E3779B97F4A7C15 * (a + 1) + 0xBF58476D1CE4E5B9 * (b + 1) + 0x94D049BB133111EB * (c + 1)) % 18446744073709551616
+  let y := (x ^^^ (x >>> 29)) * 0xD6E8FEB86659FD93 % 18446744073709551616
+  y ^^^ (y >>> 32)
+
+def rotate {α : Type} (l : List α) (k : Nat) : List α :=
+  if l.isEmpty then l else l.drop (k % l.length) ++ l.take (k % l.length)
+
+def mkRound (seed tag S bits : Nat) : Round where
+  mask j i := (mix seed tag j i * 18446744073709551629 + mix seed (tag + 7) j i) % 2 ^ bits
+  dest j i := mix seed (tag + 1) j i % S
+  shuf d l := if mix seed (tag + 2) d 0 % 2 == 0 then rotate l (mix seed (tag + 3) d 1) else (rotate l (mix seed (tag + 3) d 1)).reverse
+
+/-- input distribution over shards (only the *shape* matters for the model) -/
+def distribute (dist : String) (S seed : Nat) (rows : List Nat) : List (List Nat) :=
+  let idx := List.range rows.length
+  let shardOf (i : Nat) : Nat :=
+    match dist with
+    | "rr" => i % S
+    | "last" => S - 1
+    | "first" => 0
+    | _ => mix seed 99 i 0 % S
+  (List.range S).map (fun s => (idx.zip rows).filterMap (fun (i, r) => if shardOf i == s then some r else none))
+
+def sortNat (l : List Nat) : List Nat := l.mergeSort (fun a b => a ≤ b)
+
+def consistentOut (o : HelperOut × HelperOut × HelperOut) : Bool :=
+  o.1.right == o.2.1.left && o.2.1.right == o.2.2.left && o.2.2.right == o.1.left
+
+def e2e (bits S : Nat) (dist : String) (seed : Nat) (rows : List Nat) : String :=
+  let x := distribute dist S seed rows
+  let s1 : Table := x.mapIdx (fun j l => l.mapIdx (fun i _ => mix seed 11 j i % 2 ^ bits))
+  let s2 : Table := x.mapIdx (fun j l => l.mapIdx (fun i _ => mix seed 12 j i % 2 ^ bits))
+  let s3 : Table := txor (txor x s1) s2
+  -- H1 holds (s1, s2), H2 holds (s2, s3)
+  let ρ : Rand := { r12 := mkRound seed 20 S bits, r23 := mkRound seed 30 S bits, r31 := mkRound seed 40 S bits,
+                    a := fun d i => mix seed 50 d i % 2 ^ bits, b := fun d i => mix seed 60 d i % 2 ^ bits }
+  let out := (shuffle S ρ { left := s1, right := s2 } { left := s2, right := s3 }).1
+  s!"ok consistent={boolStr (consistentOut out)} rows={showNatList (sortNat (reconstruct out).flatten)}"
+
+def parseHexList (s : String) : Option (List (List Nat)) :=
+  if s = "-" then some [] else (s.splitOn ",").mapM parseHexBytes
+
+def tagsResp (bits : Nat) (keys : List Nat) (rows : List (List Nat)) : String :=
+  "ok " ++ showNatList (rows.map (rowCheck bits keys))
+
+def addTagsResp (bits : Nat) (key : Nat) (rows : List Nat) : String :=
+  let kb := toLe ((bits + 7) / 8) key
+  let keys := words (kb.length + 1) kb
+  let out := rows.map (fun r => bytesHex (addTag bits keys r))
+  if out.isEmpty then "ok -" else "ok " ++ String.intercalate "," out
+
+def controlGate (g : String) : Bool := g == "cardinality" || g.startsWith "hash"
+
+def tamperResp (nrows : Nat) (gate : String) : String :=
+  if nrows > 0 || controlGate gate then "hit=1 detected=1" else "hit=0 detected=0 intact=1"
 
 /-- `some response` if the request belongs to this property, else `none`. -/
-def handle (_toks : List String) : Option String := none
+def handle (toks : List String) : Option String :=
+  match toks with
+  | ["c05.e2e", _mode, bits, shards, dist, seed, rows] => some <| (do
+      pure (e2e (← bits.toNat?) (← shards.toNat?) dist (← seed.toNat?) (← parseNatList rows))).getD "bad-request"
+  | ["c05.tags", bits, keys, rows, _expect] => some <| (do
+      pure (tagsResp (← bits.toNat?) (← parseNatList keys) (← parseHexList rows))).getD "bad-request"
+  | ["c05.addtags", bits, _seed, key, rows] => some <| (do
+      pure (addTagsResp (← bits.toNat?) (← key.toNat?) (← parseNatList rows))).getD "bad-request"
+  | ["c05.tamper", _bits, _shards, _seed, nrows, _att, gate, _dest, _byte, _mask, _nth] => some <| (do
+      pure (tamperResp (← nrows.toNat?) gate)).getD "bad-request"
+  | t :: _ => if t.startsWith "c05." then some "bad-request" else none
+  | _ => none
 
-/-- Property oracle on (request, implementation response): `some "holds"`, `some "fails <why>"`, or `none`. -/
-def oracle (_toks : List String) (_impl : String) : Option String := none
+/-! ## Spec-side oracle (independent of `Model/Shuffle`)
+
+* `c05.e2e`: the reconstructed output rows are the input rows as a multiset and the sharing is consistent;
+* `c05.tags` / `c05.addtags`: `Σ keyᵢ·wordᵢ (+ tag)` with a shift-and-reduce ("Russian peasant") multiplication in
+  GF(2)[x]/(x^32+x^7+x^3+x^2+1), written independently of the model's clmul-then-reduce;
+* `c05.tamper`: whenever the attacker changed a message, an honest helper returned an error; otherwise
+  the result is intact. -/
+
+def peasantMul (a b : Nat) : Nat :=
+  let step (st : Nat × Nat × Nat) (_ : Nat) : Nat × Nat × Nat :=
+    let (acc, x, y) := st
+    let acc := if y % 2 == 1 then acc ^^^ x else acc
+    let x := x * 2
+    let x := if x ≥ 4294967296 then x ^^^ 4294967437 else x
+    (acc, x, y / 2)
+  ((List.range 32).foldl step (0, a % 4294967296, b % 4294967296)).1
+
+def specWords (bytes : List Nat) : List Nat :=
+  let rec go : Nat → List Nat → List Nat
+    | 0, _ => []
+    | _, [] => []
+    | f + 1, bs => ofLeBytes (bs.take 4) :: go f (bs.drop 4)
+  go (bytes.length + 1) bytes
+
+def specCheck (bits : Nat) (keys : List Nat) (row : List Nat) : Nat :=
+  let off := (bits + 7) / 8
+  let ws := specWords (row.take off)
+  let tag := ofLeBytes (row.drop off)
+  (ws.zip keys).foldl (fun acc (w, k) => acc ^^^ peasantMul w k) tag
+
+def verdict (b : Bool) (why : String) : String := if b then "holds" else "fails " ++ why
+
+def oracle (toks : List String) (impl : String) : Option String :=
+  match toks with
+  | ["c05.e2e", _, _, _, _, _, rows] =>
+      match parseNatList rows with
+      | some rs => some (verdict (impl == s!"ok consistent=1 rows={showNatList (sortNat rs)}")
+          "shuffle output is not a consistent re-sharing of the input multiset (or a helper failed/hung)")
+      | none => some "unknown"
+  | ["c05.tags", bits, keys, rows, _] =>
+      match (do pure (impl == "ok " ++ showNatList ((← parseHexList rows).map (specCheck (← bits.toNat?) (← parseNatList keys))))) with
+      | some b => some (verdict b "hashed tag values differ from Σ keyᵢ·wordᵢ + tag over GF(2^32)")
+      | none => some "unknown"
+  | ["c05.addtags", bits, _, key, rows] =>
+      match (do
+        let bits ← bits.toNat?
+        let nb := (bits + 7) / 8
+        let keys := specWords (leBytes (← key.toNat?) nb)
+        let want := (← parseNatList rows).map (fun r =>
+          let rb := leBytes r nb
+          bytesHex (rb ++ leBytes ((specWords rb |>.zip keys).foldl (fun acc (w, k) => acc ^^^ peasantMul w k) 0) 4))
+        pure (impl == (if want.isEmpty then "ok -" else "ok " ++ String.intercalate "," want))) with
+      | some b => some (verdict b "MPC tag is not Σ keyᵢ·wordᵢ over GF(2^32)")
+      | none => some "unknown"
+  | ["c05.tamper", _, _, _, _, _, _, _, _, _, _] =>
+      some (verdict (impl == "hit=1 detected=1" || impl == "hit=0 detected=0 intact=1")
+        "a helper altered a shuffle message and no honest helper reported an error (or an untouched run was not intact)")
+  | t :: _ => if t.startsWith "c05." then some "unknown" else none
+  | _ => none
 
 end IpaVerif.Driver.C05
